@@ -102,6 +102,14 @@ fn system_program(accounts: &[AccountInfo], data: &[u8]) -> ProgramResult {
         return Err(ProgramError::InvalidInstructionData);
     }
     let tag = u32::from_le_bytes(data[0..4].try_into().unwrap());
+    let r = system_program_inner(tag, accounts, data);
+    if r.is_err() && std::env::var("WPSIM_DEBUG_FAILS").is_ok() {
+        eprintln!("DEBUG system program tag={} data={:?} accounts={:?} -> {:?}", tag, &data[4..], accounts.iter().map(|a| (a.key.to_string(), a.lamports(), a.data_len(), a.is_signer, a.is_writable)).collect::<Vec<_>>(), r);
+    }
+    r
+}
+
+fn system_program_inner(tag: u32, accounts: &[AccountInfo], data: &[u8]) -> ProgramResult {
     match tag {
         0 => {
             let lamports = rd_u64(data, 4)?;
